@@ -103,6 +103,16 @@ def roles_of(lines):
 
 
 def _case(job):
+    vlib.alarm(900)
+    try:
+        return _case_inner(job)
+    except vlib.WorkerHang:
+        return {"path": job[0], "status": "ok", "problems": [("any", "hang", "reading the file or one of its re-layouts did not finish within 900 s", [])], "variants": 0, "tokens": 0}
+    finally:
+        vlib.alarm(0)
+
+
+def _case_inner(job):
     import random
 
     path, seed, kinds = job
